@@ -21,6 +21,9 @@ def _has_quantifier(t, limit=20000):
     return False
 
 
+_SYMS_CACHE = {}
+
+
 def skolemize(goal, assumptions):
     """goal of the shape (forall x. body) [possibly under an implication / conjunction]: replace the bound
     variable by a fresh constant and instantiate every single-variable universally quantified assumption of the
@@ -130,6 +133,17 @@ class Ob:
             return None
 
         def syms(t):
+            k = t.get_id()
+            ent = _SYMS_CACHE.get(k)
+            if ent is not None and ent[0].eq(t):
+                return ent[1]
+            r = syms0(t)
+            if len(_SYMS_CACHE) > 200000:
+                _SYMS_CACHE.clear()
+            _SYMS_CACHE[k] = (t, r)     # the AST is kept alive with its entry: ids are recycled only after collection
+            return r
+
+        def syms0(t):
             out, todo, seen = set(), [t], set()
             while todo:
                 x = todo.pop()
